@@ -360,6 +360,7 @@ def main():
     # --- Lean-side witness search when a proof obligation broke
     lean_witness = None
     if broken and broken.kind == "theorem" and cfg.get("witness"):
+        lake_build(cfg.get("witness_modules", []))
         rc, out, err = sh(["lake", "env", "lean", "--run", os.path.join(LEAN, cfg["witness"])], cwd=LEAN, timeout=1200)
         w = [l for l in out.splitlines() if l.startswith("WITNESS")]
         if w:
